@@ -445,7 +445,18 @@ structure UndeclareArgs where
   tag : Option Tag
   versionAndTag : Bool        -- undeclareVersionAndTag
   noaction : Bool
+  force : Bool
+  /-- `SETUP_<NAME>` in the environment of the command: "name version -f flavor -Z stack" -/
+  setup : Option (Ver × Flav × Nat)
   deriving Repr
+
+/-- `Eups.isSetup(product)` for the product found in stack `s`: the environment says a version of the product
+is set up, that version is found (through the view) in the stack and flavor the environment names, and it is
+this stack and this version — whatever the flavor -/
+def isSetup (a : UndeclareArgs) (m : Spec) (s : Nat) (v : Ver) : Bool :=
+  match a.setup with
+  | none => false
+  | some (sv, sf, ss) => (m.findDecl ss a.name sv sf).isSome && ss == s && sv == v
 
 /-- `if not versionName`: the version is inferred when the listing of the product has one entry -/
 def inferVersion (nst : Nat) (a : UndeclareArgs) (ver : Option Ver) (m : Spec) : Except Outcome Ver :=
@@ -476,7 +487,9 @@ def undeclareVersion (nst : Nat) (a : UndeclareArgs) (ver : Option Ver) (p : Pro
   | .ok v =>
     match p.mem.findIn (stacksOf nst a.stack) a.name v a.self with
     | none => (.notFound, p)
-    | some prod => removeVersion a v prod.stack (untagFirst nst a v prod.stack p)
+    | some prod =>
+      if isSetup a p.mem prod.stack v && !a.force then (.refused, p) else   -- "is already setup; specify force"
+      removeVersion a v prod.stack (untagFirst nst a v prod.stack p)
 
 def undeclare (nst : Nat) (a : UndeclareArgs) (p : Proc) : Outcome × Proc :=
   match a.tag with
@@ -498,14 +511,14 @@ def undeclare (nst : Nat) (a : UndeclareArgs) (p : Proc) : Outcome × Proc :=
 (native flavor, whole path), `undeclare(name, version)` undeclares it, then the directory goes — or, in a
 dry run, "rm -rf" is printed.  (The recursive collection and the in-use check are C14's `Remove` model; this
 is its per-product step.) -/
-def remove (nst : Nat) (self : Flav) (n : Name) (v : Ver) (recursive noaction : Bool) (p : Proc) :
-    Outcome × Proc :=
+def remove (nst : Nat) (self : Flav) (n : Name) (v : Ver) (recursive noaction force : Bool)
+    (setup : Option (Ver × Flav × Nat)) (p : Proc) : Outcome × Proc :=
   match p.mem.findIn (allStacks nst) n v self with
   | none => (.notFound, p)
   | some prod =>
     -- `recursive`: `_remove` reads `product.getTable()` (the universes' tables declare no dependencies)
     if recursive && prod.table == .default && !(p.tableExists prod.dir n) then (.tableMissing, p) else
-    match undeclare nst ⟨self, n, some v, none, none, false, noaction⟩ p with
+    match undeclare nst ⟨self, n, some v, none, none, false, noaction, force, setup⟩ p with
     | (.ok, p1) =>
       if noaction then (.ok, p1) else
       if p.dirExists prod.dir then (.ok, p1.emit (.rmTree prod.dir)) else (.failed, p1)   -- `rmtree` raised
@@ -518,7 +531,7 @@ inductive Cmd
   | undeclare (a : UndeclareArgs)
   | assignTag (self : Flav) (t : Tag) (n : Name) (v : Ver) (stack : Option Nat)
   | unassignTag (self : Flav) (t : Tag) (n : Name) (v : Option Ver) (stack : Option Nat) (noaction : Bool)
-  | remove (self : Flav) (n : Name) (v : Ver) (recursive noaction : Bool)
+  | remove (self : Flav) (n : Name) (v : Ver) (recursive noaction force : Bool) (setup : Option (Ver × Flav × Nat))
   | query (self : Flav)
   deriving Repr
 
@@ -536,7 +549,7 @@ def Cmd.noaction : Cmd → Bool
   | .undeclare a => a.noaction
   | .assignTag .. => false
   | .unassignTag _ _ _ _ _ na => na
-  | .remove _ _ _ _ na => na
+  | .remove _ _ _ _ na _ _ => na
   | .query _ => true
 
 def run (nst : Nat) (c : Cmd) (p : Proc) : Outcome × Proc :=
@@ -545,7 +558,7 @@ def run (nst : Nat) (c : Cmd) (p : Proc) : Outcome × Proc :=
   | .undeclare a => undeclare nst a p
   | .assignTag f t n v st => assignTag f t n v (stacksOf nst st) p
   | .unassignTag f t n v st na => unassignTag nst f t n v st na p
-  | .remove f n v rc na => remove nst f n v rc na p
+  | .remove f n v rc na fo su => remove nst f n v rc na fo su p
   | .query _ => (.ok, p)
 
 end EupsModel.Db
